@@ -29,7 +29,7 @@ Definition cfg_ids (cfg : nat) : bool := match cfg with 2%nat => true | _ => fal
 Definition model_write (nss : list (ident * text)) (cfg : nat) (s : snode) (d : dnode) : option xelem :=
   write_doc nss (cfg_ids cfg) dec_text false (cfg_stream cfg) s d.
 Definition model_read (nss : list (ident * text)) (s : snode) (x : xelem) : res dnode :=
-  read_doc nss parse_dec_exact false s x.
+  read_doc nss parse_dec_exact false false s x.
 
 Definition oxelem_eqb (a b : option xelem) : bool :=
   match a, b with
@@ -45,9 +45,10 @@ Definition res_obs_eqb (m : res dnode) (o : obs) : bool :=
   end.
 
 (** the spec oracle "the same tree" ([same_tree], [canon]) and the text domain ([texts_ok]) are in
-    Tree/XmlSpec.v.  Domain of the spec: conforming data - choice-free schema, data shaped like it,
-    every string made of characters XML 1.0 can carry. *)
-Definition in_domain (s : snode) (d : dnode) : bool := choice_free s && shaped s d && texts_ok d.
+    Tree/XmlSpec.v.  Domain of the spec: conforming data - data shaped like the schema (choices
+    included: at most one case populated is the generator's business), every string made of
+    characters XML 1.0 can carry. *)
+Definition in_domain (s : snode) (d : dnode) : bool := shaped s d && texts_ok d.
 
 Definition back_ok (s : snode) (d : dnode) (o : obs) : bool :=
   match o with ObsOk b => same_tree s b d | _ => false end.
